@@ -339,6 +339,15 @@ def part_b(case, v, log, stats):
                 "bound ('sc', %r, 'x') = %r, get_configurable('sc/%s')() "
                 'received %r' % (q, val + 's', q, received))
           if apis['reference'][0] == 'ok':
+            # the reference written with spelling q points at the key that the
+            # binding made above lives under
+            ref = attempt(lambda: gin.query_parameter('zzz.consumer.r'))
+            if ref[0] == 'ok' and hasattr(gin.config, 'validate_reference'):
+              chk = attempt(lambda: gin.config.validate_reference(ref[1]))
+              if chk[0] != 'ok':
+                v('C08.same_key', ['reference-key'],
+                  'reference @%s does not address the bindings made for %r '
+                  '(validate_reference: %s)' % (q, target, chk[1]))
             received.clear()
             attempt(consumer)
             if received.get('consumer', {}).get('r') is not wrappers[target]:
